@@ -36,6 +36,7 @@ VERIF = os.path.dirname(os.path.dirname(os.path.abspath(__file__)))
 DEFAULT_SEED = 20260921
 
 
+from .fs import StubGap
 from .loop import SimStall
 
 
@@ -97,6 +98,8 @@ def one_run(mod, scenario, seed=None, replay=None):
                                "detail": str(e)}],
                "stats": {}, "digest": None, "sim_time": 0.0, "schedule": None,
                "nontrivial": False}
+    except StubGap as e:
+        raise HarnessError(f"{mod.PROPERTY}/{scenario} seed={seed}: stub gap: {e}") from None
     except Exception as e:       # a harness bug, never a verdict
         raise HarnessError(
             f"{mod.PROPERTY}/{scenario} seed={seed}: "
